@@ -843,6 +843,10 @@ func (w *World) M12(rec *ScanRecord) []Violation {
 				}
 			case e.Kind == sim.ATerminateInASG && e.ASG == "" && e.OK():
 				out = append(out, viol("C12", "terminate-unknown-instance", "while processing group %d: %s", gr.G, e.String()))
+			case e.Kind == sim.MDeleteNodes || e.Kind == sim.MIncreaseSize:
+				if tg := w.GroupOfASG(e.ASG); tg != gr.G {
+					out = append(out, viol("C12", "cloud-call-on-other-group", "while processing group %d: %s addresses the cloud group of group %d", gr.G, e.String(), tg))
+				}
 			}
 		}
 	}
